@@ -49,6 +49,27 @@ def params_of(fnode):
     return out
 
 
+def _mentions(repo, res, dref, target, depth=0):
+    """Does the package function dref (a decorator) refer to `target` in its body, directly or through package helpers it calls?"""
+    if not dref or not dref.startswith('pkg:') or depth > 3:
+        return False
+    m, node = res.lookup(dref)
+    if not isinstance(node, ast.FunctionDef):
+        return False
+    for n in ast.walk(node):
+        if isinstance(n, (ast.Name, ast.Attribute)):
+            r = res.resolve(n, m)
+            if r == target:
+                return True
+            if r and r != dref and r.startswith('pkg:') and isinstance(n, ast.Name) and _mentions(repo, res, r, target, depth + 1):
+                return True
+    return False
+
+
+def _registers(repo, res, dref):
+    return _mentions(repo, res, dref, REGISTER)
+
+
 def build(repo, res):
     """All functions registered through @xl.register(...) anywhere in the package."""
     out = []
@@ -59,6 +80,14 @@ def build(repo, res):
             decs = res.decorators(fnode)
             refs = [r for r, _ in decs]
             if REGISTER not in refs:
+                # a private decorator of the package that registers what it is given: its body calls xl.register(...)
+                via = [i for i, r in enumerate(refs) if r and _registers(repo, res, r)]
+                if not via:
+                    continue
+                validated = any(_mentions(repo, res, refs[i], VALIDATE) for i in via) or VALIDATE in refs[via[0] + 1:]
+                rf = RegFunc(fnode.name, m, fnode, validated, refs)
+                rf.reg_first = via[0] == 0          # the registering decorator is the outermost one
+                out.append(rf)
                 continue
             reg_idx = refs.index(REGISTER)
             dnode = decs[reg_idx][1]
